@@ -1777,7 +1777,12 @@ class Method:
                     continue
                 name = f.strip()
                 field = self.input.get_field(*name.split("."))
-                name += "_" if field.field_pb.name in utils.RESERVED_NAMES else ""
+                # Disambiguate every segment of a dotted path, not only the leaf:
+                # `request.from.owner` is not valid Python.
+                name = ".".join(
+                    part + "_" if part in utils.RESERVED_NAMES else part
+                    for part in name.split(".")
+                )
                 if cross_pkg_request and not field.is_primitive:
                     # This is not a proto-plus wrapped message type,
                     # and setting a non-primitive field directly is verboten.
